@@ -32,19 +32,28 @@ WINDOW_KEY = "exit-window:tasks-scheduled-while-worker-exiting-not-run"
 
 MUTATION_DRILLS = [
     {"mutation": "deployer.cc NextTask(): std::lock_guard removed",
-     "ran": "VERIF_REPO=<scratch worktree> bin/check C15 quick",
-     "fired": "VIOLATION: translator table changes (NextTask rows unlocked) -> C15_table_recognised/C15_race_free no longer check; "
-              "TSan stress reports race:rime::Deployer::NextTask|rime::Deployer::ScheduleTask (found_input)"},
+     "ran": "VERIF_REPO=/var/tmp/wt-c15 VERIF_CACHE=/var/tmp/rime-verif-c15 bin/check C15 quick (scratch worktree of /repo a1848ee)",
+     "fired": "VIOLATION with failing input: ThreadSanitizer race:rime::Deployer::NextTask|rime::Deployer::ScheduleTask (9 reports in 5 s of "
+              "stress); translator gives lk_next=0, table_ok false -> Properties_C15.v no longer checks"},
     {"mutation": "deployer.cc ScheduleTask(an<DeploymentTask>): std::lock_guard removed",
-     "ran": "same", "fired": "VIOLATION: table_ok false (ScheduleTask row unlocked); TSan race report on pending_tasks_ (found_input)"},
-    {"mutation": "deployer.cc StartWork(): maintenance_mode_ = maintenance_mode moved after the std::async spawn",
-     "ran": "same", "fired": "VIOLATION no-failing-input-found: table_shape_ok false (StartWork statement order differs from the "
-                             "order the model's program and C15_maintenance_flag are proved for); behaviourally equivalent for a single client thread"},
+     "ran": "same", "fired": "VIOLATION with failing input: ThreadSanitizer race:rime::Deployer::NextTask|rime::Deployer::ScheduleTask; "
+                             "lk_sched=0, table_ok false -> Properties_C15.v no longer checks"},
+    {"mutation": "deployer.cc StartWork(): `maintenance_mode_ = maintenance_mode` moved after the std::async spawn",
+     "ran": "same", "fired": "VIOLATION no-failing-input-found: table_shape_ok false (StartWork's statement order is not the one the model's "
+                             "program and C15_maintenance_flag are proved for); the mutant is behaviourally equivalent for one client thread, "
+                             "so no failing schedule exists at the hooks (0 mismatches, 0 TSan reports)"},
     {"mutation": "deployer.cc Run(): `while (HasPendingTasks())` replaced by `while (false)` (re-check removed)",
-     "ran": "same", "fired": "VIOLATION: table_shape_ok false and correspondence/oracle: a task scheduled while the worker was "
-                             "sending its result is never run (lost:... key, found_input)"},
-    {"mutation": "deployer.cc Run(): message_sink_(\"deploy\", \"success\") moved before the task loop",
-     "ran": "same", "fired": "VIOLATION: oracle exec-after-last-result on the real observations (found_input) + correspondence difference"},
+     "ran": "same", "fired": "VIOLATION with failing input lost:task-scheduled-before-last-result-not-run (SU:111 SU:111 J IM: task 5 scheduled "
+                             "before the result notification is never run), found by the tolerant search after 11435 stuck / 275 differing "
+                             "schedules; table_shape_ok false"},
+    {"mutation": "deployer.cc Run(): message_sink_(\"deploy\", result) moved before the task loop ('success' sent before the tasks ran)",
+     "ran": "same", "fired": "VIOLATION with failing input exec-after-last-result (5011 schedules) and lost:tasks-not-run-where-the-model-runs-them; "
+                             "8162 differing schedules; table_shape_ok false"},
+    {"mutation": "unfixed tree (/repo 6f9c578, before a1848ee): Set/ClearNotificationHandler without mutex_, Notify tests outside the lock",
+     "ran": "bin/check C15 quick on /repo before the fix",
+     "fired": "VIOLATION with failing inputs: ThreadSanitizer race:rime::Service::Notify|rime::Service::SetNotificationHandler, "
+              "badcall:join-rethrows-bad_function_call (H1 SM:111 H0 J ... | cccccccwwcwccc, 13 enumerated schedules + witness), "
+              "table_ok false"},
 ]
 
 CALLS = ["SM", "SU", "IM", "J", "C", "K", "G", "F", "D", "H1", "H0"]
@@ -139,6 +148,15 @@ def oracles(h0, script, obs):
                 bad.append(("lost:task-scheduled-before-start-not-run",
                             "tasks %s scheduled before the worker started were not run when maintenance was reported over" % sorted(lost_weak)))
             lost = [t for t in scheduled if t not in executed and t not in sched_at_spawn]
+            # a task scheduled BEFORE the worker's last result notification must have been seen by the
+            # HasPendingTasks re-check; the exit window only exists after that notification
+            early = [t for t in lost if any(x in ("notify:success", "notify:failure")
+                                            for x in obs[obs.index("sched:" + t):i])]
+            if early:
+                bad.append(("lost:task-scheduled-before-last-result-not-run",
+                            "tasks %s were scheduled before the worker sent its last result notification and were not run when "
+                            "maintenance was reported over" % sorted(early, key=int)))
+            lost = [t for t in lost if t not in early]
             if lost:
                 bad.append((WINDOW_KEY, "tasks %s scheduled while the worker was exiting were not run when "
                                         "is_maintenance_mode()/join reported maintenance over" % sorted(lost, key=int)))
@@ -328,6 +346,19 @@ def run(ctx):
                 # the known finding is the loss the faithful model exhibits; a loss the model does not predict is another defect
                 key, what = "lost:tasks-not-run-where-the-model-runs-them", what + " (the model runs them along this schedule)"
             per_key.setdefault(key, []).append((c, ob, what))
+    # --- failing-input search when the correspondence broke: follow the same schedules tolerantly
+    # on the real library and evaluate the property's oracles on what it does
+    searched = 0
+    if stuck or mism:
+        pool = [c for c, _ in (stuck + mism)][:4000]
+        feed = "".join("%d %s | t%s\n" % (h, " ".join(s), sch) for _, h, s, sch, _ in pool)
+        rc, sout, serr = vlib.sh2([exe, ctx.scratch("c15-search")], stdin=feed, timeout=900,
+                                  env={"ASAN_OPTIONS": "detect_leaks=0:abort_on_error=0"})
+        for c, ob in zip(pool, sout.split("\n")):
+            searched += 1
+            for key, what in oracles(c[1], c[2], ob.strip().split()):
+                per_key.setdefault(key, []).append((("search:" + c[0], c[1], c[2], "t" + c[3], c[4]), ob.strip(), what))
+    ctx.coverage["search_runs"] = searched
     ctx.coverage.update({
         "evaluations": len(cases), "scripts": len(scripts), "preemption_bound": k,
         "distinct_nontrivial": len(nontrivial),
